@@ -84,6 +84,20 @@ type pathEnd struct {
 
 func (e pathEnd) Error() string { return e.status + ": " + e.msg }
 
+var callStack []string // names of the SSA functions being executed (diagnostics only)
+
 func endPath(status, f string, a ...interface{}) {
-	panic(pathEnd{status, fmt.Sprintf(f, a...)})
+	msg := fmt.Sprintf(f, a...)
+	if (status == "UNSUPPORTED" || status == "MEMSAFETY") && len(callStack) > 0 {
+		n := len(callStack)
+		msg += " [in " + callStack[n-1]
+		if n > 1 {
+			msg += " <- " + callStack[n-2]
+		}
+		if n > 2 {
+			msg += " <- " + callStack[n-3]
+		}
+		msg += "]"
+	}
+	panic(pathEnd{status, msg})
 }
